@@ -21,22 +21,24 @@ import (
 )
 
 type c18Case struct {
-	Doc      vDoc   `json:"doc"`
-	Input    string `json:"input"`  // "stream" | "failing-reader" | "missing-file" | "file"
-	FailAt   int    `json:"failat"` // permille of the text length (failing-reader)
-	Policy   string `json:"policy"` // "documented" | "drain"
-	Yields   []int  `json:"yields"` // consumer: Gosched calls before the i-th receive (cyclic)
-	SleepsUS []int  `json:"sleeps"` // consumer: sleep before the i-th receive, microseconds (cyclic)
-	ProdUS   []int  `json:"produs"` // producer: sleep between chunks, microseconds (cyclic)
-	Chunks   []int  `json:"chunks"`
-	Procs    int    `json:"procs"`
-	Comment  int    `json:"comment"`            // parser configuration: 0 default, 1 the zero Config{}, 2 ';' as comment character
-	LongLine int    `json:"longline"`           // > 0: a note line of that many bytes is inserted after the first heading
-	Warmup   int    `json:"warmup"`             // the same Parser value first parses this many other streams (the first with an error), drained to Done
-	Err      int    `json:"err"`                // failing-reader: index into c10Errors
-	Skip     int    `json:"skip"`               // seekable: permille of the text already consumed by the caller before parsing
-	NameForm int    `json:"nameform,omitempty"` // odd-name: which spelling of the file name is handed to the parsers
-	BOM      bool   `json:"bom"`                // the text starts with a UTF-8 byte order mark (both parsers must treat it alike)
+	Doc         vDoc   `json:"doc"`
+	Input       string `json:"input"`  // "stream" | "failing-reader" | "missing-file" | "file"
+	FailAt      int    `json:"failat"` // permille of the text length (failing-reader)
+	Policy      string `json:"policy"` // "documented" | "drain"
+	Yields      []int  `json:"yields"` // consumer: Gosched calls before the i-th receive (cyclic)
+	SleepsUS    []int  `json:"sleeps"` // consumer: sleep before the i-th receive, microseconds (cyclic)
+	ProdUS      []int  `json:"produs"` // producer: sleep between chunks, microseconds (cyclic)
+	Chunks      []int  `json:"chunks"`
+	Procs       int    `json:"procs"`
+	Comment     int    `json:"comment"`               // parser configuration: 0 default, 1 the zero Config{}, 2 ';' as comment character
+	LongLine    int    `json:"longline"`              // > 0: a note line of that many bytes is inserted after the first heading
+	Warmup      int    `json:"warmup"`                // the same Parser value first parses this many other streams (the first with an error), drained to Done
+	Err         int    `json:"err"`                   // failing-reader: index into c10Errors
+	Skip        int    `json:"skip"`                  // seekable: permille of the text already consumed by the caller before parsing
+	EOFWithData bool   `json:"eofwithdata,omitempty"` // the reader reports io.EOF together with its last bytes
+	SameStat    bool   `json:"samestat,omitempty"`    // file input: the path held other text of the same length and the same times when it was parsed just before
+	NameForm    int    `json:"nameform,omitempty"`    // odd-name: which spelling of the file name is handed to the parsers
+	BOM         bool   `json:"bom"`                   // the text starts with a UTF-8 byte order mark (both parsers must treat it alike)
 }
 
 func (c c18Case) config() parser.Config {
@@ -154,14 +156,14 @@ func checkC18(c c18Case, ctx *vCtx) *vFailure {
 	mkReader := func() io.Reader {
 		switch c.Input {
 		case "failing-reader":
-			return &vFaultReader{data: []byte(text), failAt: c.FailAt * len(text) / 1000, err: c10Errors[c.Err%len(c10Errors)], chunks: c.Chunks}
+			return &vFaultReader{data: []byte(text), failAt: c.FailAt * len(text) / 1000, err: c10Errors[c.Err%len(c10Errors)], chunks: c.Chunks, withLast: c.EOFWithData}
 		case "seekable":
 			// a seekable reader the caller has already read from: only the rest is to be parsed
 			r := strings.NewReader(text)
 			_, _ = r.Seek(int64(c.Skip*len(text)/1000), io.SeekStart)
 			return r
 		default:
-			return &vFaultReader{data: []byte(text), failAt: len(text) + 1, chunks: c.Chunks}
+			return &vFaultReader{data: []byte(text), failAt: len(text) + 1, chunks: c.Chunks, eofWithLast: c.EOFWithData}
 		}
 	}
 	stallRelease := make(chan struct{})
@@ -324,6 +326,52 @@ func checkC18(c c18Case, ctx *vCtx) *vFailure {
 	}
 	if c.Warmup > 0 {
 		ctx.Label("parser-reused")
+	}
+	if c.Input == "file" && c.SameStat {
+		// the same path was parsed a moment ago when it held other text of the same length, and the file's times are the
+		// same as then (cp -p, rsync -t, two writes inside one clock tick): the file's present content is what counts
+		decoy := []byte(text)
+		changed := false
+		for i, b := range decoy {
+			switch {
+			case b >= '0' && b <= '8':
+				decoy[i], changed = b+1, true
+			case b == '9':
+				decoy[i], changed = '0', true
+			}
+		}
+		if changed {
+			stamp := time.Date(2021, 5, 5, 12, 0, 0, 0, time.UTC)
+			if err := os.WriteFile(filePath, decoy, 0o644); err != nil {
+				vFault("write: %v", err)
+			}
+			_ = os.Chtimes(filePath, stamp, stamp)
+			pw := parser.NewParser(cfg)
+			wdone := make(chan struct{})
+			go func() { pw.ParseFile(filePath); close(wdone) }()
+			tm := time.After(15 * time.Second)
+		drainw:
+			for {
+				select {
+				case <-pw.Nodes:
+				case <-pw.Errors:
+				case <-pw.Done:
+					break drainw
+				case <-tm:
+					vFault("C18: the earlier parse of the same path did not finish")
+				}
+			}
+			select {
+			case <-wdone:
+			case <-time.After(15 * time.Second):
+				vFault("C18: the earlier producer did not exit")
+			}
+			if err := os.WriteFile(filePath, []byte(text), 0o644); err != nil {
+				vFault("write: %v", err)
+			}
+			_ = os.Chtimes(filePath, stamp, stamp)
+			ctx.Label("same-path-same-size-same-times")
+		}
 	}
 	if c.Input == "fifo" {
 		go func() {
@@ -539,6 +587,8 @@ func genC18(t *rapid.T) c18Case {
 	c.Comment = []int{0, 0, 0, 1, 2}[rapid.IntRange(0, 4).Draw(t, "config")]
 	c.Warmup = []int{0, 0, 0, 1, 2}[rapid.IntRange(0, 4).Draw(t, "warmup")]
 	c.BOM = rapid.IntRange(0, 9).Draw(t, "bom") == 0
+	c.EOFWithData = rapid.IntRange(0, 2).Draw(t, "eofwithdata") == 0
+	c.SameStat = rapid.Bool().Draw(t, "samestat")
 	if rapid.IntRange(0, 9).Draw(t, "longline") == 0 {
 		c.LongLine = []int{4096, 8192, 65535, 65536, 70000, 100000, 140000}[rapid.IntRange(0, 6).Draw(t, "longlinen")]
 	}
